@@ -138,7 +138,7 @@ func continueOpen(open *bool, ctl, fin bool) {
 
 // srcKinds are the concrete io.Reader types an application hands to the
 // decoders: the decoding must not depend on which one it is.
-var srcKinds = []string{"chunker", "bufio16", "bufio19", "bufio64", "bufio4096", "bufio-over-bufio", "bytes.Reader", "bytes.Buffer", "readerOnly", "bufio16-used"}
+var srcKinds = []string{"chunker", "bufio16", "bufio19", "bufio64", "bufio4096", "bufio-over-bufio", "bytes.Reader", "bytes.Buffer", "readerOnly", "bufio16-used", "queue-Len-buffered", "Len-zero"}
 
 // mkSource returns the source and a function that re-uses every piece of
 // memory the source owned for something else (what an application does with a
@@ -163,6 +163,13 @@ func mkSource(kind string, stream []byte, plan xport.Plan) (io.Reader, func()) {
 		return b, func() { b.Reset(); b.Write(junk[:len(stream)]); scribble() }
 	case "readerOnly":
 		return readerOnly{xport.NewChunker(stream, plan)}, scribble
+	case "queue-Len-buffered":
+		// a receive queue: Len() says how many bytes are buffered RIGHT NOW (the rest of the segment that arrived
+		// last), not how many are still to come
+		return &lenQueue{src: xport.NewChunker(stream, plan)}, scribble
+	case "Len-zero":
+		// a reader that happens to have a Len method about something else
+		return lenZero{xport.NewChunker(stream, plan)}, scribble
 	case "bufio16-used":
 		// a buffered reader that already served some bytes of the connection (a
 		// handshake, say): its buffer is part-consumed when the first header comes
@@ -173,6 +180,31 @@ func mkSource(kind string, stream []byte, plan xport.Plan) (io.Reader, func()) {
 	}
 	return xport.NewChunker(stream, plan), scribble
 }
+
+type lenQueue struct {
+	src io.Reader
+	buf []byte
+	err error
+}
+
+func (q *lenQueue) Len() int { return len(q.buf) }
+func (q *lenQueue) Read(p []byte) (int, error) {
+	if len(q.buf) == 0 && q.err == nil {
+		seg := make([]byte, 4096)
+		n, err := q.src.Read(seg)
+		q.buf, q.err = seg[:n], err
+	}
+	if len(q.buf) == 0 {
+		return 0, q.err
+	}
+	n := copy(p, q.buf)
+	q.buf = q.buf[n:]
+	return n, nil
+}
+
+type lenZero struct{ io.Reader }
+
+func (lenZero) Len() int { return 0 }
 
 // subSourceKinds: one byte stream (a sequence of frames, possibly cut short),
 // decoded by ws.ReadHeader(+payload reads), ws.ReadFrame and the streaming
